@@ -12,6 +12,8 @@ case kinds
   {"kind": "expand", "rsmi": r}                                                CanonRSMI.expand_aam(r): map numbers of every atom afterwards
   {"kind": "balstr", "rsmis": [..]}                                            rsmi_balance_check at string level (split, formula ==, ValueError)
   {"kind": "equiv", "rsmis": [..], "method": "RC"|"ITS"}                       AAMValidator.check_equivariant_graph on the graphs of the strings
+  {"kind": "remap", "rsmi": r, "pvars": [[(new, old)..]..], "lvars": [[old..]..]}  CanonRSMI.remap_graph (both forms, error cases), get_aam_pairwise_indices
+  {"kind": "records", "input": {str|list|other}, "col": c}                     BalanceReactionCheck.parse_input / dicts_balance_check on records
   {"kind": "validate", "rows": [{gt, x, y, z}], "cols": [..], "method", "ia", "df"}  AAMValidator.validate_smiles: per column results / count / n
   {"kind": "subgraph", "rsmi": r, "side": 0|1, "keep": [ids]}                  NormalizeAAM.extract_subgraph / reset_indices_and_atom_map on a parsed side
   {"kind": "fixaam", "rsmi": r}                                                FixAAM.fix_aam_rsmi(r) parsed again = the graphs of r with every id + 1 (+ the norm oracle)
@@ -30,7 +32,7 @@ from ..tok import S
 
 PID = "C09"
 COQ_HEADER = ("From Coq Require Import String.\nFrom Coq Require Import List NArith ZArith.\n"
-              "From SK Require Import lib.Tok lib.LGraph lib.StrJoin model.C01_Model model.C02_Model model.C09_Model model.C09_Strings model.C09_State.\n"
+              "From SK Require Import lib.Tok lib.LGraph lib.StrJoin model.C01_Model model.C02_Model model.C09_Model model.C09_Strings model.C09_State model.C09_Helpers model.C09_Records.\n"
               "Import ListNotations.\nOpen Scope Z_scope.\n")
 SHARD = 24
 IMPL_TIMEOUT = 1500
@@ -124,6 +126,18 @@ def _valid_graphs(rsmi):
     from synkit.IO.chem_converter import rsmi_to_graph
     try:
         g, h = rsmi_to_graph(rsmi=rsmi, sanitize=True, drop_non_aam=True)
+    except Exception:
+        return None
+    if g is None or h is None:
+        return None
+    return g, h
+
+
+def _unexpanded_graphs(rsmi):
+    """rsmi_to_graph WITHOUT expand_aam and without dropping the unmapped atoms (they keep atom_map = 0, id = atom index)"""
+    from synkit.IO import rsmi_to_graph
+    try:
+        g, h = rsmi_to_graph(rsmi, drop_non_aam=False)
     except Exception:
         return None
     if g is None or h is None:
@@ -381,6 +395,28 @@ def impl(case):
         return ST.balstr_impl(case)
     if k == "equiv":
         return ST.equiv_impl(case)
+    if k == "records":
+        return ST.records_impl(case)
+    if k == "remap":
+        from synkit.Chem.Reaction.canon_rsmi import CanonRSMI
+        gh = _unexpanded_graphs(case["rsmi"])
+        if gh is None:
+            return ["unparsable"]
+        G, H = gh
+        c = CanonRSMI()
+
+        def run(v):
+            try:
+                X = CanonRSMI.remap_graph(H, v)
+            except ValueError:
+                return [-1]
+            except KeyError:
+                return [-2]
+            Y = X.copy()
+            c.sync_atom_map_with_index(Y)
+            return [E.obs_mgraph(X), E.obs_mgraph(Y)]
+        return [[list(p) for p in CanonRSMI.get_aam_pairwise_indices(G, H)], [list(p) for p in c.get_aam_pairwise_indices(H, G, "atom_map")],
+                [run([tuple(p) for p in v]) for v in case["pvars"]], [run(list(v)) for v in case["lvars"]]]
     if k == "validate":
         from synkit.Chem.Reaction.aam_validator import AAMValidator
         data = [dict(r) for r in case["rows"]]
@@ -470,6 +506,15 @@ def coq_case(case):
             return ST.expand_term(case["rsmi"])
         if k == "balstr":
             return ST.balstr_term(case)
+        if k == "records":
+            return ST.records_term(case)
+        if k == "remap":
+            gh = _unexpanded_graphs(case["rsmi"])
+            if gh is None or not _ascii_elems(*gh) or not _simple(*gh):
+                return None
+            pv = "[" + "; ".join("[" + "; ".join("(%s, %s)" % (E.cN(a), E.cN(b)) for a, b in v) + "]" for v in case["pvars"]) + "]"
+            lv = "[" + "; ".join("[" + "; ".join(E.cN(a) for a in v) + "]" for v in case["lvars"]) + "]"
+            return "run_helpers %s %s %s %s" % (E.coq_mgraph(E.from_nx(gh[0])), E.coq_mgraph(E.from_nx(gh[1])), pv, lv)
         if k == "validate":
             if not ST.ascii_ok(case["method"]):
                 return None
@@ -891,6 +936,10 @@ def nontrivial(case, obs):
         return isinstance(obs, list) and len(obs) == 3 and len(case["keep"]) >= 2
     if k == "validate":
         return isinstance(obs, list) and len(case["rows"]) >= 2
+    if k == "remap":
+        return isinstance(obs, list) and len(obs) == 4
+    if k == "records":
+        return isinstance(obs, list) and len(obs) == 2 and obs[1] != [-1]
     return (k == "std" and bool(case.get("variants"))) or k == "norm"
 
 
@@ -920,7 +969,7 @@ def distribution(cases, obss):
             if c["backend"] == "nauty" and n > NAUTY_MAX_ATOMS:
                 outside["nauty_too_big"] += 1
     d["outside_model_bounds"] = outside
-    d["string_level"] = {kk: sum(1 for c in cases if c["kind"] == kk) for kk in ("std", "expand", "equiv", "balstr", "fixaam", "norm", "subgraph", "validate")}
+    d["string_level"] = {kk: sum(1 for c in cases if c["kind"] == kk) for kk in ("std", "expand", "equiv", "balstr", "fixaam", "norm", "subgraph", "validate", "remap", "records")}
     d["std_strings"] = sum(1 + len(c.get("variants", [])) for c in cases if c["kind"] == "std")
     d["expand_unmapped_atoms"] = {}
     for c, o in zip(cases, obss):
@@ -1339,6 +1388,37 @@ def gen_cases(tier, rng):
             continue
         for keep in (rng.sample(ids, max(1, len(ids) // 2)), [], list(reversed(ids)), rng.sample(ids, min(3, len(ids))) * 2 + [max(ids) + 5, 0]):
             cases.append(dict(kind="subgraph", rsmi=t, side=n_ % 2, keep=keep, src="%s#%d" % (s, i)))
+    # the static helpers called directly: remap_graph with full / partial / colliding / missing / empty / repeated maps in both argument
+    # forms, get_aam_pairwise_indices on graphs that still contain unmapped atoms (atom_map = 0)
+    for n_, (s, i, t) in enumerate(eq_pool + [("hand", 9, HAND_VALID[-1][0]), ("hand", 10, "[CH3:5][OH:2].C>>[CH3:5]O.C[OH:2]")]):
+        r_ = (G9.unmap_some(t, rng) or t) if n_ % 2 else t
+        gh = _unexpanded_graphs(r_)
+        if gh is None or gh[1].number_of_nodes() < 2:
+            continue
+        ns = sorted(gh[1].nodes)
+        a, b = rng.sample(ns, 2)
+        top = max(ns)
+        pvars = [[(n + 100, n) for n in ns], [(n + 100, n) for n in rng.sample(ns, max(1, len(ns) // 2))], [(top + 50, a), (top + 50, b)], [(b, a)],
+                 [(1, top + 7)], [], [(top + 20, a), (top + 30, a)], [(a, b), (b, a)], [(0, a)]]
+        perm = list(ns)
+        rng.shuffle(perm)
+        lvars = [perm, perm[:2], [top + 7], [], [a, a], [b]]
+        cases.append(dict(kind="remap", rsmi=r_, pvars=pvars, lvars=lvars, src="%s#%d" % (s, i)))
+    # BalanceReactionCheck on records: every input form of parse_input / dicts_balance_check, records that already carry a "balanced" key
+    # (any value, any position), extra keys, dicts without the column, foreign items, a string that is not a reaction
+    brs_ = [r for r in HAND_BALANCE[:8]] + [x[2] for x in rng.sample(corp, 3 if q else 60)]
+    for n_ in range(0, len(brs_) - 2, 3):
+        a, b, c = brs_[n_:n_ + 3]
+        old = ["old", True, False, 7][n_ % 4]
+        cases.append(dict(kind="records", col="rx", src="rec#%d" % n_, input=dict(list=[
+            dict(dict=[["id", 1], ["rx", a]]), dict(dict=[["balanced", old], ["rx", b], ["note", "x"]]), dict(other=5), dict(dict=[["zz", "C>>C"]]),
+            c, dict(dict=[["rx", c], ["balanced", not old if isinstance(old, bool) else "new"]]), dict(dict=[["rx", a], ["rx2", b]])])))
+        cases.append(dict(kind="records", col="reactions", src="rec#%d" % n_, input=dict(list=[a, b, c, a])))
+        cases.append(dict(kind="records", col="reactions", src="rec#%d" % n_, input=dict(str=b)))
+    cases.append(dict(kind="records", col="r", src="hand", input=dict(other=5)))
+    cases.append(dict(kind="records", col="r", src="hand", input=dict(list=[])))
+    cases.append(dict(kind="records", col="r", src="hand", input=dict(list=["C>>C", "a>>b>>c", "CC>>C"])))
+    cases.append(dict(kind="records", col="balanced", src="hand", input=dict(list=[dict(dict=[["balanced", "C>>C"], ["k", 1]]), "CC>>C"])))
     # validate_smiles: several records, three mapper columns (renumbered / wrong / other reaction), options given positionally
     for n_ in range(0, len(eq_pool) - 2, 2 if q else 1):
         ts = [x[2] for x in eq_pool[n_:n_ + 3]]
